@@ -24,7 +24,7 @@ def call_ctx(f, call, env):
                     break
                 if sib.get('k') == 'IfStmt' and sib['slots'].get('else') is None and _always_exits(sib['slots'].get('then')) \
                         and not any((m.get('callee_name') or '') in CLAUSE_SINKS or (m.get('callee_name') or '').endswith(('::propagate', '::new_clause')) for m in walk(sib['slots'].get('cond'))):
-                    loops.append(('if', canon(sib['slots'].get('cond'), env, subst=False), False))
+                    loops.extend(_literals(canon(sib['slots'].get('cond'), env, subst=False), False))
         if k == 'CXXForRangeStmt':
             v = a['slots']['var']
             loops.append(('each', canon(a['slots']['range'], env, subst=False), tuple(v['bindings']) if v.get('bindings') else v.get('name')))
@@ -49,10 +49,23 @@ def call_ctx(f, call, env):
             if in_cond:
                 continue
             pol = _contains(sl.get('then'), call)
-            entry = ('if', canon(sl.get('cond'), env, subst=False), pol)
             # `if (!new_clause(..)) return` style guards between sibling statements never enclose the call body
-            (loops if loops else when).append(entry)
+            for entry in _literals(canon(sl.get('cond'), env, subst=False), pol):
+                (loops if loops else when).append(entry)
     return loops, when
+
+
+def _literals(t, pol):
+    """a guard as a list of ('if', atom, polarity): negations stripped, conjunctions that hold and disjunctions that fail split into their parts
+    (`if (!a)`, `if (a) {} else`, `if (x && y)` and nested ifs give the same entries)."""
+    while isinstance(t, tuple) and len(t) == 2 and t[0] == '!':
+        t, pol = t[1], not pol
+    if isinstance(t, tuple) and t and ((t[0] == '&&' and pol) or (t[0] == '||' and not pol)):
+        out = []
+        for x in t[1:]:
+            out.extend(_literals(x, pol))
+        return out
+    return [('if', t, pol)]
 
 
 def _always_exits(st):
